@@ -494,6 +494,13 @@ func (c *cache) remoteSync(ctx context.Context, ptr *node.Pointer, fetcher readS
 		return err
 	}
 
+	// The proof must be of the version that has been asked for. Nodes merged from a proof of another
+	// version have a different shape (e.g. a version 1 internal node only carries the hash of its
+	// leaf), which this tree is not prepared to serve to its own clients.
+	if proof.V != syncProofsVersion {
+		return fmt.Errorf("mkvs: got proof of unexpected version (%d)", proof.V)
+	}
+
 	// The proof can be for one of two hashes: i) it is either for ptr.Hash in case
 	// all the nodes are only contained in the subtree below ptr, or ii) it is for
 	// the c.syncRoot.Hash in case it contains nodes outside the subtree.
